@@ -20,9 +20,21 @@ PROPERTIES = {
                 "the bit operators of the Go code; equality is proved by bit-extensionality. The model is tied to the code on "
                 "every run through the public API (fake net.Conn, scripted reader): all 2^11 standard IDs x flags x lengths "
                 "exhaustively, extended/out-of-range IDs (boundary, one-hot, one-cold, random), lengths 9..255, and blocks for "
-                "every flag combination x ID patterns x dlc x payloads (+ random padding) plus random blocks.",
+                "every flag combination x ID patterns x dlc x payloads (+ random padding) plus random blocks. A third of "
+                "the structured and a quarter of the random blocks are ALSO delivered unaligned (Q lines): 1..4 blocks as one "
+                "byte stream through one Receiver, cut at an arbitrary offset, inside every block, by a constant read size "
+                "that is not 16, by a random partition, or all blocks in one read; the k-th Receive must yield exactly "
+                "what the theorem says about the k-th block, so 'a 16-byte block yields the frame' is checked for "
+                "unaligned reads too and not only for one Read = one block. The receive side covers ALL 256 values of the "
+                "length byte x 8 flag combinations x 4 IDs; the transmit side also runs valid frames on connections whose "
+                "first Write of a call fails with a real error kind (ENOBUFS, EAGAIN, EINTR, EPIPE, ECONNRESET, a net.Error "
+                "with Timeout/Temporary, io.ErrShortWrite, os.ErrDeadlineExceeded, context.DeadlineExceeded, also wrapped "
+                "in os.SyscallError / net.OpError) after accepting n = 0..16 bytes while any further Write would succeed: "
+                "still exactly one Write of the frame's 16 bytes and that error returned.",
         "note": _NOTE + "The standard-ID/flag/length lattice of the correspondence is exhaustive; extended IDs, payloads and "
-                        "blocks are sampled (structured + random). Transmitting a frame that fails validation is outside the "
+                        "blocks are sampled (structured + random). That the decoded frame does not depend on how the "
+                        "block is cut into reads is C07's theorem (C07_segmentation_independent); C06 only samples it "
+                        "(Q lines). Transmitting a frame that fails validation is outside the "
                         "property; there the implementation is compared with the model only.",
         "technique": "Coq proof about a Gallina model + differential correspondence of model and code through the public API",
         "design_ref": "5.6",
@@ -41,13 +53,39 @@ PROPERTIES = {
                 "drives the real Receiver with a scripted io.ReadCloser whose log of returned reads is what the model consumes "
                 "(every constant chunk size 1..64 for streams of 0..6 frames + 0..15 trailing bytes, ALL cut sets of streams "
                 "up to 17 bytes, seeded random partitions, an error with and without data at every read index, empty-read "
-                "runs of 1..150, reads larger than the scanner buffer) and the real Transmitter with a fake net.Conn.",
+                "runs of 1..150, reads larger than the scanner buffer) and the real Transmitter with a fake net.Conn. "
+                "SEVERAL receivers / transmitters in one process: Socketcan/Process.v models a process as a finite map of "
+                "receiver states driven by operations tagged with the receiver they address (NewReceiver with/without an "
+                "interceptor, Receive, Close); C07_receivers_independent proves that under EVERY interleaving receiver i "
+                "shows what the single-receiver model shows on the operations addressed to i, C07_receiver_in_process that "
+                "this is the floor(n/16) frames of ITS OWN stream with one call of ITS OWN interceptor each (none if it has "
+                "none); C07_transmitter_in_process is the analogue for transmitters. The correspondence run drives 1..5 real "
+                "Receivers at a time (M lines: own scripted connection and own tagged interceptor each; every with/without-"
+                "interceptor assignment for up to 3 receivers in both creation orders; life cycles with Close once/twice/"
+                "three times - also while frames are buffered - followed by new receivers; seeded random create/Receive/"
+                "Close schedules; many frames per read) and 1..5 real Transmitters (N lines: own connection and own tagged "
+                "interceptor each), records for every call which receiver's/transmitter's interceptor and connection were "
+                "touched, and compares the whole tagged observation sequence with the process model. Transmit faults: the "
+                "first Write of a call answering (n, err) for every n = 0..16 x 15 real error kinds (syscall.ENOBUFS/EAGAIN/"
+                "EINTR/EPIPE/ECONNRESET, a net.Error with Timeout/Temporary, io.ErrShortWrite, os.ErrDeadlineExceeded, "
+                "context.DeadlineExceeded, and os.SyscallError / net.OpError wrappers of them) with every later Write of the "
+                "call succeeding - one Write, no interceptor, the error returned (C07_transmit_cases holds for every error "
+                "value); 2..8 goroutines on ONE shared Transmitter whose connection holds every Write until all are "
+                "pending - each pending Write carries its own frame (C lines).",
         "note": _NOTE + "bufio.Scanner is modelled, not verified (oracle, DESIGN.md section 3): buffer shifting/doubling is "
                         "abstracted as re-segmentation of reads, a reader violating 0 <= n <= len(p) is not modelled. "
                         "TransmitFrame discards the byte count returned by Write: model = code, so a Write answering "
                         "(n < 16, nil) counts as a success and is never followed by a second Write "
                         "(C07_transmit_ignores_write_count). "
-                        "Segmentations are exhaustive only for streams up to 17 bytes (20 in the thorough tier).",
+                        "Segmentations are exhaustive only for streams up to 17 bytes (20 in the thorough tier). "
+                        "In the process model (Process.v) receivers and transmitters are VALUES, so the independence "
+                        "theorems hold by construction of the model; that the Go objects share no memory (scan buffers "
+                        "from a package-level pool, option structs reached through a shared pointer, ...) is a fact about "
+                        "Go aliasing that the functional model cannot express - it is OBSERVED by the M/N lines on the "
+                        "sampled schedules (sequential interleavings in one goroutine; concurrent use of different "
+                        "receivers is not exercised), not proved. Receiver.Close only forwards to the connection; what "
+                        "the connection answers to reads after Close (the harness: keeps serving, or an error) is part "
+                        "of the logged read list the model consumes.",
         "technique": "Coq proof (induction over read results) about a Gallina model + differential correspondence under "
                      "scripted segmentations and fault injection",
         "design_ref": "5.7",
@@ -61,14 +99,29 @@ RULES = {
            "random padding on every other) + payload basis + seeded random blocks; C lines: 2..8 goroutines transmitting "
            "distinct valid frames on ONE shared Transmitter whose conn holds every Write until all are inside Write, the "
            "multiset of written blocks compared with the frames' layouts (10 rounds quick, 100 thorough; normal build, no "
-           "-race); distinct by line hash; every case counts "
+           "-race); Q lines: every 3rd structured and every 4th random block again, in batches of 1..4 blocks through ONE "
+           "Receiver whose reader cuts the stream at one arbitrary offset / inside every block / by a constant size "
+           "1..47 not divisible by 16 / by a random partition / not at all (all blocks in one read); "
+           "all 256 length bytes x 8 flag combinations x 4 IDs as R lines; X lines: valid frames, first Write of the call "
+           "answering (n, real error kind) for n 0..16 x 15 kinds x with/without deadline, alone and inside a 5-call "
+           "sequence, later Writes of the call succeeding; "
+           "distinct by line hash; every case counts "
            "as non-trivial (each exercises a different ID/flag/length/byte pattern)",
     "C07": "S lines = one scripted connection each: const chunk sizes 1..64 x 112 stream lengths; all cut sets for n <= 17 "
            "(20 thorough); random partitions with empty reads; error without/with data at every read index of 7 base "
            "segmentations per stream; empty-read runs {1,2,50,99,100,101,102,150} at 6 positions; long streams read through "
            "the 4096-byte buffer; X lines = sequences of 1..5 TransmitFrame calls; all 40 answer combinations (ctx with/without "
            "deadline x SetWriteDeadline ok/failed x Write answering n in {0,1,8,15,16} x {nil, error}) exhaustively as "
-           "single calls and as first call of a sequence, then random sequences. "
+           "single calls and as first call of a sequence, then random sequences; "
+           "M lines = one process with 1..5 Receivers each: 14 with/without-interceptor assignments x 2 creation orders x 6, "
+           "500 close life cycles (Close 1..3 times after 0..2 Receives, then 1..3 new receivers, all drained interleaved), "
+           "1500 random create/Receive/Close schedules of 8..47 operations (streams of 0..6 frames + tail, whole-stream / "
+           "constant / random reads, trailing errors, connections that fail or keep serving after Close); N lines = 1..5 "
+           "Transmitters with own connection: the same 14 x 2 x 6 assignments + 400 random ones, 4..15 calls with random answers "
+           "(x20 in the thorough tier); further X lines: first Write of a call answering (n, real error kind) for n 0..16 x 15 "
+           "kinds x with/without deadline (alone and inside a 5-call sequence; later Writes of the call would succeed), "
+           "SetWriteDeadline failing with each kind; C lines: 2..8 goroutines on one shared Transmitter, 10 rounds (100 "
+           "thorough); streams contain blocks with length bytes 9..255 and fully random blocks. "
            "non-trivial = at least one complete frame or a non-nil terminating error; distinct by line hash",
 }
 
@@ -77,6 +130,8 @@ _TIE_TEXT = ' In addition the model is REGENERATED from the source on every run:
 _TIE_NOTE = " Added trusted base of the translation tie: the translator harness/translate/main.go (unverified Go program) and Translate/GoSem.v's reading of Go's integer semantics."
 for _pid in ['C06']:
     PROPERTIES[_pid] = dict(PROPERTIES[_pid], text=PROPERTIES[_pid]["text"] + _TIE_TEXT, note=PROPERTIES[_pid]["note"] + _TIE_NOTE)
+translate_tie.describe(PROPERTIES, "C07", "(here: the split function scanFrames of receiver.go, = the model's scan_frames)",
+                       translate_tie.TIE_NOTE_INT, translate_tie.TIE_NOTE_SLICE)
 
 
 def harness_args(pid, tier, seed):
@@ -102,5 +157,7 @@ def run(res, replay=None):
     }[pid]
     if pid == "C06":
         translate_tie.run_tie(res, ["wire"])
+    else:
+        translate_tie.run_tie(res, ["scan"])
     vlib.standard_run(res, "socketcan", harness_args(pid, res.tier, res.seed), "socketcan", RULES[pid], assumptions,
                       exhaustive=False, timeout=3000 if res.tier == "thorough" else 900)
